@@ -8,3 +8,8 @@ import TlxVerif.Props.C13
 #print axioms TlxVerif.C13.drain_sorted
 #print axioms TlxVerif.C13.weakOrd_prio
 #print axioms TlxVerif.C13.weakOrd_prio_rev
+#print axioms TlxVerif.C13.addr_step
+#print axioms TlxVerif.C13.addr_history
+#print axioms TlxVerif.C13.contains_iff
+#print axioms TlxVerif.C13.aremove_spec
+#print axioms TlxVerif.C13.abuild_spec
